@@ -47,6 +47,20 @@ func fixtures() []fixture {
 			p.writeStage("sub/b.yaml", &StageRec{Cmd: "mkdir -p out && cp mid.txt out/final.txt", In: []Art{{Path: "mid.txt"}}, Out: []Art{{Path: "out", IsDir: true}}})
 			return []string{"a.yaml", "sub/b.yaml"}
 		}},
+		{"flags", func(p *Project, r *rng) []string {
+			// every artifact flag a stage file can carry: a skip-cache file output beside a cached
+			// one, a non-recursive directory output, a non-recursive directory input
+			must(os.WriteFile(filepath.Join(p.Root, "big.bin"), r.bytes(60), 0o644))
+			must(os.WriteFile(filepath.Join(p.Root, "kept.bin"), r.bytes(50), 0o644))
+			for _, d := range []string{"flat", "cfg"} {
+				must(os.MkdirAll(filepath.Join(p.Root, d, "below"), 0o755))
+				must(os.WriteFile(filepath.Join(p.Root, d, "top.txt"), []byte("top of "+d), 0o644))
+				must(os.WriteFile(filepath.Join(p.Root, d, "below", "ignored.txt"), []byte("below "+d), 0o644))
+			}
+			p.writeStage("f.yaml", &StageRec{In: []Art{{Path: "cfg", IsDir: true, NoRec: true}},
+				Out: []Art{{Path: "big.bin", Skip: true}, {Path: "kept.bin"}, {Path: "flat", IsDir: true, NoRec: true}}})
+			return []string{"f.yaml"}
+		}},
 	}
 }
 
@@ -297,6 +311,31 @@ func runEffects(o *opts) {
 		if p.CacheCfg != "" && filepath.Dir(p.CacheDir) != base {
 			rmrf(filepath.Dir(p.CacheDir))
 		}
+	}
+	// a stage whose working directory lies inside its own (absent) directory output: whatever appears
+	// in the workspace must be the command's doing, and the command (`true`) creates nothing. The
+	// model has no working directories: statements only (obs 9).
+	for k := 0; k < 3; k++ {
+		base := scenarioDir(o, "effects", 800+k)
+		p := newProject(o, base, []string{"in", "rel", "abs"}[k])
+		p.init()
+		must(os.WriteFile(filepath.Join(p.Root, "in.txt"), []byte("input"), 0o644))
+		wd := []string{"out", "out/work", "out/a/b"}[k]
+		p.writeStage("w.yaml", &StageRec{Cmd: "true", Wd: wd, In: []Art{{Path: "in.txt"}}, Out: []Art{{Path: "out", IsDir: true}}})
+		if res := p.dud("", "stage", "add", "w.yaml"); res.Exit != 0 {
+			must(fmt.Errorf("effects setup: %s", res.Stderr))
+		}
+		for _, c := range []Cmd{{Kind: "run"}, {Kind: "status"}, {Kind: "run", Targets: []string{"w.yaml"}}} {
+			t, _ := p.do(c, nil, want(14, 8, 9, 13), nil, nil)
+			t.Obs = append(t.Obs, 9)
+			t.Info["scenario"] = 800 + k
+			t.Info["step"] = c.Kind + " with working-dir " + wd + " inside the absent output directory"
+			t.Info["shape"] = "working-dir-inside-absent-output"
+			all = append(all, t)
+		}
+		s.count("shape:working-dir-inside-absent-output")
+		distinct[fmt.Sprintf("wd%d", k)] = true
+		rmrf(base)
 	}
 	// a project whose cache directory does not exist yet (a fresh clone: .dud/cache is git-ignored):
 	// read-only commands do not create it
